@@ -32,6 +32,11 @@ def configs(tier):
     out.append(dict(kind="ode", opt="adam", n=4, b=2, n_iter=2, aux=False, tracked="theta", resume=True, x64=True))
     out.append(dict(kind="ode", opt="chain", n=3, b=2, n_iter=2, aux=False, tracked="none", resume=True, x64=True))
     out.append(dict(kind="statio", opt="sgd", n=3, b=3, n_iter=2, aux=False, tracked="all", resume=True, x64=True))
+    # a piecewise-linear (ReLU-like) network part: the gradient of its coefficient is EXACTLY zero on batches left of the kink, while
+    # adam's moment estimates still move it -- the optimizer's update must be applied as is
+    out.append(dict(kind="ode", opt="adam", n=4, b=2, n_iter=3, aux=False, tracked="theta", resume=False, relu=True, x64=True))
+    if not q:
+        out.append(dict(kind="ode", opt="chain", n=4, b=2, n_iter=3, aux=False, tracked="theta", resume=False, relu=True, x64=True))
     return out
 
 
@@ -43,12 +48,15 @@ def build(cfg):
     import jinns.data._DataGenerators as DG
     kind, n, b = cfg["kind"], cfg["n"], cfg["b"]
     key = jax.random.PRNGKey(7)
-    ot_theta = lambda i, o, p: o * p.eq_params["theta"]
+    relu = cfg.get("relu", False)
+    ot_theta = (lambda i, o, p: o * p.eq_params["theta"]) if not relu else \
+               (lambda i, o, p: o * p.eq_params["theta"] + p.eq_params["gamma"] * jnp.maximum(i[0], 0.0))
     d_in = {"ode": 1, "statio": 1, "nonstatio": 2}[kind]
     eq_type = {"ode": "ODE", "statio": "statio_PDE", "nonstatio": "nonstatio_PDE"}[kind]
     u = mk_pinn(d_in, 1, eq_type, deg=1, H=1, ot=ot_theta)
-    params = Params(nn_params=u.init_params(), eq_params={"theta": jnp.array(0.7), "kappa": jnp.array(1.3)})
-    both = Params(nn_params=True, eq_params={"theta": True, "kappa": False})
+    xk = (lambda v: {"gamma": v}) if relu else (lambda v: {})
+    params = Params(nn_params=u.init_params(), eq_params={"theta": jnp.array(0.7), "kappa": jnp.array(1.3), **xk(jnp.array(0.9))})
+    both = Params(nn_params=True, eq_params={"theta": True, "kappa": False, **xk(True)})
     sc = lambda v: jnp.ravel(v)[0]
     if kind == "ode":
         class Eq(ODE):
@@ -80,7 +88,7 @@ def build(cfg):
                                                 jnp.arange(1, n + 3, dtype=jnp.float64).reshape(n + 2, 1) * 0.3)
     tr = cfg["tracked"]
     tracked = {"none": None,
-               "theta": Params(nn_params=None, eq_params={"theta": True, "kappa": None}),
+               "theta": Params(nn_params=None, eq_params={"theta": True, "kappa": None, **xk(True)}),
                "nn": jax.tree.map(lambda _: True, Params(nn_params=params.nn_params, eq_params={"theta": None, "kappa": None}), is_leaf=lambda x: x is None) if False else None,
                "all": None}[tr] if tr in ("none", "theta") else None
     if tr == "nn":
@@ -144,7 +152,7 @@ def run(cfg, R):
             ref = reference(n2, ref[0], ref[3], loss, opt, opt_state=ref[4], tracked=tracked)
         return out, ref
 
-    name = f"{kind}/{optn}/n{n}b{b}/it{n_iter}" + ("/aux" if cfg["aux"] else "") + f"/tracked-{cfg['tracked']}" + ("/resumed" if resume else "")
+    name = f"{kind}/{optn}/n{n}b{b}/it{n_iter}" + ("/aux" if cfg["aux"] else "") + f"/tracked-{cfg['tracked']}" + ("/resumed" if resume else "") + ("/piecewise-net" if cfg.get("relu") else "")
     key = f"{kind}:{optn}"
     NI = n2 if resume else n_iter
 
